@@ -40,7 +40,7 @@ def required(tier):
             "cmd:realign", "records_judged", "class:negative_int", "class:float_special", "class:Z_punct",
             "class:B_array", "class:H", "class:A", "class:repeated_tag", "class:no_cigar", "class:ds",
             "class:name_with_space", "cmd:realign_passthrough", "cmd:realign_passthrough_no_cigar",
-            "record_longer_than_64KiB"]
+            "record_longer_than_64KiB", "class:cigar_placeholder"]
 
 
 def norm_fields(fields):
@@ -144,6 +144,9 @@ def run_case(ctx, rng, index, casedir):
             name = f"zr:Z:read{index}x{i}"  # a read name that looks like an optional field
         r = ggaf.make_record(g, rng, w, name, offsets="any", tags="none", cigar=False, name_space=rng.random() < 0.2)
         cg = ggaf.rand_cigar(rng, r.pe - r.ps)[0] if rng.random() < 0.85 else None
+        if cg is not None and rng.random() < 0.06:
+            cg = "*"  # the "not available" placeholder: still a cg:Z field of the record
+            sit["class:cigar_placeholder"] += 1
         forced = FORCED if i == 0 else None
         fields = ggaf.grammar_tags(rng, cg, n=len(FORCED) + 1 if i == 0 else None, forced=forced,
                                    repeats=True)
